@@ -98,6 +98,11 @@ def handle (op : String) (args : List String) : Option String := do
   | "c19.holds.line" =>           -- a b r p f
       let ref := segDist (v3 fs 0) (v3 fs 3) (v3 fs 7) - fs.getD 6 0
       pure (boolStr (close 1e-9 ref (fs.getD 10 0)))
+  | "c19.holds.line_scaled" =>    -- a b r p f : as c19.holds.line with a tolerance relative to the capsule's own scale
+      let a := v3 fs 0; let b := v3 fs 3
+      let ref := segDist a b (v3 fs 7) - fs.getD 6 0
+      let sc := dist a b + (fs.getD 6 0).abs
+      pure (boolStr ((ref - fs.getD 10 0).abs ≤ 1e-9 * sc + 1e-12 * (dist a (v3 fs 7))))
   | "c19.holds.plane" =>          -- o n(unit) h p f
       let ref := ((v3 fs 7).Sub (v3 fs 0)).Dot (v3 fs 3) + fs.getD 6 0
       pure (boolStr (close 1e-9 ref (fs.getD 10 0)))
